@@ -62,8 +62,7 @@ class InMemoryMessageBroker(MessageBrokerT):
         q = self.queues[key.queue]
         for msg in q.processing:
             if msg.key.id_ == key.id_:
-                q.processing.remove(msg)
-                q.simple.put_nowait(msg)
+                q.give_back(msg)
                 break
 
         await asyncio.sleep(0)
